@@ -2,7 +2,7 @@
 
 Five member slots — function f, class K (attribute, method, nested class, a stub-only method), module attribute x, import
 alias imp, overload set o — each in one of the statuses {absent, runtime only, stubs only, both same kind, both different
-kind} (o additionally: stub overloads followed by an implementation-style def): all 5^4 x 6 status vectors, x three stub
+kind} (o additionally: stub overloads followed by an implementation-style def): all 6 x 5^3 x 6 status vectors, x three stub
 placements (sibling mod.pyi of a top-level module; .pyi files inside a package; separate pkg-stubs package with
 find_stubs_package=True) x both directory-listing orders (.pyi reported before / after .py, through the listing seam).
 Oracle: a reference merge written per slot: every runtime member survives; same-kind pairs take parameter / return /
@@ -42,7 +42,7 @@ PATTERNS = {"quick": [(True, False, False, True), (True, True, True, True)], "th
 
 
 def bounds(tier):
-    return {"slots": ["f", "K", "x", "imp", "o"], "statuses": STATUS + ["o: overloads+implementation in stubs"], "placements": PLACEMENTS, "orders": ORDERS,
+    return {"slots": ["f", "K", "x", "imp", "o"], "statuses": STATUS + ["o: overloads+implementation in stubs", "f: stub signature with an extra leading parameter"], "placements": PLACEMENTS, "orders": ORDERS,
             "doc/annotation patterns": len(PATTERNS[tier])}
 
 
@@ -50,7 +50,7 @@ def all_cases(tier):
     for pat in PATTERNS[tier]:
         if tier == "thorough" and pat == PATTERNS["quick"][0]:
             pass
-        for sv in itertools.product(range(5), range(5), range(5), range(5), range(6)):
+        for sv in itertools.product(range(6), range(5), range(5), range(5), range(6)):
             for pl in PLACEMENTS:
                 yield (sv, pl, pat)
 
@@ -70,10 +70,13 @@ def sources(sv, pat):
     def block(lines):
         return "\n".join(l for l in lines if l is not None)
 
-    if f in (1, 3, 4):
+    if f in (1, 3, 4, 5):
         rt.append(block([f"def f(a{': float' if rt_ann else ''}, b{': float' if rt_ann else ''}=1){' -> float' if rt_ann else ''}:", d(rt_doc, "Runtime doc f."), "    return 0"]))
     if f in (2, 3):
         st.append(block([f"def f(a{': int' if st_ann else ''}, b{': str' if st_ann else ''} = ...){' -> bool' if st_ann else ''}:", d(st_doc, "Stub doc f."), "    ..."]))
+    if f == 5:
+        # same kind on both sides, but the stub signature starts with a parameter the runtime function does not have
+        st.append(block([f"def f(stub_only{': bytes' if st_ann else ''}, a{': int' if st_ann else ''}, b{': str' if st_ann else ''} = ...){' -> bool' if st_ann else ''}:", d(st_doc, "Stub doc f."), "    ..."]))
     if f == 4:
         st.append("f: int")
     if k in (1, 3, 4):
@@ -167,7 +170,7 @@ def expected(sv, pat):
     elif f == 2:
         e["f"] = {"kind": "function", "runtime": False, "doc": "Stub doc f." if st_doc else None, "params": [("a", "int" if st_ann else None), ("b", "str" if st_ann else None)],
                   "returns": "bool" if st_ann else None, "overloads": None}
-    elif f == 3:
+    elif f in (3, 5):
         e["f"] = {"kind": "function", "runtime": True, "doc": doc("Runtime doc f.", "Stub doc f.", True, True), "params": [("a", "int" if st_ann else None), ("b", "str" if st_ann else None)],
                   "returns": "bool" if st_ann else None, "overloads": None}
     if k in (1, 4):
@@ -255,7 +258,7 @@ def run_case(griffe, acc, case):
     for where, fld, g, e in _diff(results["asc"][0], exp):
         slot = where.split(".")[0]
         st = sv[names[slot]] if slot in names else -1
-        status = "stub-overloads+implementation" if (slot == "o" and st == 5) else (STATUS[st] if 0 <= st < 5 else "?")
+        status = "stub-overloads+implementation" if (slot == "o" and st == 5) else "both+stub-only-parameter" if (slot == "f" and st == 5) else (STATUS[st] if 0 <= st < 5 else "?")
         acc.violation(f"merge/{where}/{status}/{fld}" + (f"/{pl}" if fld in ("missing", "extra") else ""), f"{modpath}.{where} ({status}): {fld} is {g!r}, reference merge says {e!r}", cd, {"placement": pl}, size=size)
 
 
